@@ -90,6 +90,10 @@ Definition chk_bmc (tab : list (list N * list N)) (p : bmcp) (dgs : list (list N
   let '(b, s) := bmc_fold tab p bmc_start dgs exp in
   b && option_eqb N.eqb (b_viol s) viol && (b_cnt s =? cnt) && (phase_no (b_ph s) =? ph).
 
+(* k real calls of Session.increment_sequence_number from n end where the closed form of
+   C06_seq_closed_form says (k given as N: no large nat literal) *)
+Definition chk_seq_walk (n k e : N) : bool := ((n - 1 + k) mod 0xffffffff + 1 =? e).
+
 (* get_max_auth_type(supported) on a support byte: 999 = None *)
 Definition chk_max_auth (support : N) (supported : option (list N)) (e : N) : bool :=
   (match max_auth_type support supported with Some a => a | None => 999 end) =? e.
